@@ -128,6 +128,36 @@ func (c *Ctx) symEval(fn *ssa.Function, v ssa.Value, useBlock *ssa.BasicBlock, s
 			if f := call.Call.StaticCallee(); f != nil && f.Pkg != nil && f.Pkg.Pkg.Path() == namegenPath && strings.HasPrefix(f.Name(), "Random") {
 				return []sstr{{satom{kind: "name", text: f.Name(), call: call, useFn: fn, useBlock: useBlock, genFn: fn, genBlock: call.Block()}}}
 			}
+			// the generator is a function-typed parameter of this helper/closure: bound at its call sites
+			if gp, isParam := call.Call.Value.(*ssa.Parameter); isParam && gp.Parent() == fn {
+				idx := -1
+				for i, p := range fn.Params {
+					if p == gp {
+						idx = i
+					}
+				}
+				var out []sstr
+				all := idx >= 0
+				for _, e := range c.G.In[fn] {
+					cs, ok := e.Site.(ssa.CallInstruction)
+					if !ok || e.Kind == "closure" || e.Kind == "inlined-const" || e.Kind == "inlined-table" {
+						continue
+					}
+					if idx >= len(cs.Common().Args) {
+						all = false
+						continue
+					}
+					gf, _ := cs.Common().Args[idx].(*ssa.Function)
+					if gf == nil || gf.Pkg == nil || gf.Pkg.Pkg.Path() != namegenPath || !strings.HasPrefix(gf.Name(), "Random") {
+						all = false
+						continue
+					}
+					out = append(out, sstr{satom{kind: "name", text: gf.Name(), call: call, useFn: fn, useBlock: useBlock, genFn: fn, genBlock: call.Block()}})
+				}
+				if all && len(out) > 0 {
+					return out
+				}
+			}
 			// a fixture helper that returns a generated name: its successful returns, evaluated in the helper
 			if h := call.Call.StaticCallee(); h != nil && len(h.Blocks) > 0 && depth < 10 {
 				if rel, ok := c.P.PkgOf(h); ok && rel == "testutil" && isBasic(h.Signature.Results().At(0).Type(), types.String) {
@@ -176,7 +206,7 @@ func (c *Ctx) symEval(fn *ssa.Function, v ssa.Value, useBlock *ssa.BasicBlock, s
 			nsites := 0
 			for _, e := range c.G.In[fn] {
 				call, ok := e.Site.(ssa.CallInstruction)
-				if !ok || e.Kind == "closure" {
+				if !ok || e.Kind == "closure" || e.Kind == "inlined-const" || e.Kind == "inlined-table" {
 					continue
 				}
 				args := call.Common().Args
@@ -210,6 +240,34 @@ func (c *Ctx) symEval(fn *ssa.Function, v ssa.Value, useBlock *ssa.BasicBlock, s
 			return []sstr{{satom{kind: "val", text: c.varPath(x, 0)}}}
 		}
 	case *ssa.Call:
+		// a fixture helper / local closure with a single string result that returns a generated name
+		if h := x.Call.StaticCallee(); h != nil && len(h.Blocks) > 0 && depth < 10 && h.Signature.Results().Len() == 1 && isBasic(h.Signature.Results().At(0).Type(), types.String) {
+			if rel, ok := c.P.PkgOf(h); ok && rel == "testutil" {
+				var out []sstr
+				for _, ret := range core.Returns(h) {
+					rr := core.ResolvedResults(ret)
+					for _, alt := range c.symEval(h, rr[0], ret.Block(), map[ssa.Value]bool{}, depth+1) {
+						for i := range alt {
+							if alt[i].kind == "name" {
+								alt[i].genFn, alt[i].genBlock = fn, x.Block()
+							}
+						}
+						out = append(out, alt)
+					}
+				}
+				hasName := false
+				for _, alt := range out {
+					for _, a := range alt {
+						if a.kind == "name" {
+							hasName = true
+						}
+					}
+				}
+				if hasName {
+					return out
+				}
+			}
+		}
 		return []sstr{{satom{kind: "other", text: "result of " + shorten(strings.ReplaceAll(core.CalleeName(x), core.Module+"/", ""))}}}
 	}
 	return []sstr{{satom{kind: "other", text: fmt.Sprintf("%T", v)}}}
